@@ -7,8 +7,13 @@ package parser
 // ---------------------------------------------------------------------------------------------
 // C14: map iteration order
 
+// The keys are collected in map order and then put into the canonical order of sort.Strings: the result is a
+// function of the key SET. That canonical order is assumed of sort.Strings only - the body must be exactly this
+// idiom (any other comparison function would need its own proof that it is a strict total order on the keys).
 //@ func SortedIdNames
-//@ trusted small helper (collect keys, sort.Strings): assumed to return exactly the keys of the map, sorted
+//@ effects_only
+//@ effect io_only sort.Strings
+//@ effect last_call sort.Strings names
 //@ props C14 C06 C08 C11
 //@ results names
 //@ ensures forall i int :: 0 <= i && i < len(names) ==> has(m, names[i])
